@@ -13,8 +13,10 @@ from pathlib import Path
 
 VERIF = Path("/verif")
 DRIVER = VERIF / "ocaml" / "_build" / "driver"
-EVIDENCE_DIR = VERIF / "evidence"
-REPLAY_DIR = VERIF / "replays"
+import os as _os
+# (VERIF_SCRATCH_OUT: experiments only — tools/wt_eval.sh; the registered checks never set it)
+EVIDENCE_DIR = Path(_os.environ["VERIF_SCRATCH_OUT"]) / "evidence" if _os.environ.get("VERIF_SCRATCH_OUT") else VERIF / "evidence"
+REPLAY_DIR = Path(_os.environ["VERIF_SCRATCH_OUT"]) / "replays" if _os.environ.get("VERIF_SCRATCH_OUT") else VERIF / "replays"
 CORPUS_DIR = VERIF / "corpus"
 KNOWN_FINDINGS = VERIF / "known_findings.json"
 
